@@ -8,6 +8,19 @@ BASE = "cd /repo && /venv/bin/python -m pytest -ra -q -p no:cacheprovider --time
 
 # id -> dict(level, text, note, technique, design_ref, engine)
 CLAIMS = {
+ "C01": dict(
+  level="model_checking",
+  text="Envelope_MC models the create pipeline (from_obj; update_severable_digests; update_digest; to_cbor) with a "
+       "dependency that must be refreshed before the parent hashes it; TLC checks I1 DigestBindsManifest, I2 SeveredBound, "
+       "I3 SuppliedNeverSurvives, ParentBindsChild exhaustively over the member x mode x supplied-digest product (swapped "
+       "steps / stale child are counterexamples). The TLC-enumerated combinations are concretised with all five algorithms "
+       "cycled over every field and created by the real tool (library, CLI as YAML and JSON); every level of every output "
+       "is projected with the verifier's own CBOR reader and hashlib reverse lookup and judged by TLC (Tool_Trace / "
+       "Envelope.tla).",
+  note="Trusted: TLC, the verifier's CBOR reader, hashlib, sha256 interning. suit-install-legacy (17) observed, not judged. "
+       "Manifest lengths 23/24 are unreachable for any real manifest (> 60 bytes); 255/256 and 65535/65536 are exercised.",
+  technique="TLA+ spec (Envelope.tla, Envelope_MC.tla) + TLC exhaustive model checking + TLC-generated combinations replayed into real create + TLC trace validation of projected envelopes",
+  design_ref="DESIGN.md 4.4, 5 (C01)", engine="tlc"),
  "C12": dict(
   level="model_checking",
   text="Mpi.tla specifies the 48-byte record (policy table, reserved bytes, UUIDs, 0xFF fill) and the merged area "
